@@ -16,12 +16,14 @@ Operation tokens (shared with the Lean driver):
   w0 w1 (queue_and_send_record, w1 = the transport answers with pauseProducing) | P R S (transport calls
   pause/resume/stopProducing) | r:<sc>:<p>:<1|0> (registerProducer push|pull) | u:<sc> | c:<sc> (subchannel_closed)
   | U D (use_connection / stop_using_connection) | pl:<p> (one Cooperator work unit of adapter p)
-Inbound tokens: use | stop | p <sc> | r <sc> | s <sc> | o <sc> (subchannel_local_open) | c <sc> (subchannel_closed)
+Inbound tokens: use | stop | p <sc> | r <sc> | s <sc> (SubChannel.pause/resume/stopProducing) | o <sc> / oh <sc>
+  (subchannel_local_open + _set_protocol, plain / half-closeable protocol) | c <sc> (Manager.subchannel_closed directly)
+  | rc <sc> (peer's CLOSE via Inbound.handle_close) | l <sc> (sc.loseConnection()) | lw <sc> (sc.loseWriteConnection())
 """
 import itertools
 
 from zope.interface import alsoProvides, implementer
-from twisted.internet.interfaces import IPullProducer, IPushProducer
+from twisted.internet.interfaces import IPullProducer, IPushProducer, IHalfCloseableProtocol
 from twisted.internet.task import CooperativeTask, Clock
 
 from wormhole._dilation.outbound import Outbound, PullToPush
@@ -34,6 +36,7 @@ from wormhole._interfaces import IDilationManager, IDilationConnector, ISend
 from wormhole.eventual import EventualQueue
 
 from ..core import Result
+from ..util import automat_state
 
 ID = "C15"
 PROP_MODULES = ["WV.Props.C15"]
@@ -420,10 +423,59 @@ class FakeSend:
         pass
 
 
+class FullProto:
+    """a plain IProtocol on a subchannel: records what it is told"""
+    half = False
+
+    def __init__(self):
+        self.lost = False
+
+    def makeConnection(self, t):
+        pass
+
+    def dataReceived(self, data):
+        pass
+
+    def connectionLost(self, why=None):
+        self.lost = True
+
+    def gone(self):
+        return self.lost
+
+
+@implementer(IHalfCloseableProtocol)
+class HalfProto(FullProto):
+    half = True
+
+    def __init__(self):
+        self.lost = False
+        self.rlost = False
+        self.wlost = False
+
+    def readConnectionLost(self):
+        self.rlost = True
+
+    def writeConnectionLost(self):
+        self.wlost = True
+
+    def gone(self):
+        return self.lost or (self.rlost and self.wlost)
+
+
+# exceptions that are the caller's (application's / peer's) own fault, per operation
+IN_EXPECTED = {
+    "o": {"AssertionError"}, "oh": {"AssertionError"}, "c": {"KeyError"}, "rc": {"NoTransition"},
+    "l": {"NoTransition", "AlreadyClosedError", "NormalCloseUsedOnHalfCloseable"},
+    "lw": {"NoTransition", "AlreadyClosedError", "HalfCloseUsedOnNonHalfCloseable"},
+}
+
+
 def run_in(case):
-    """Real Manager (its real Inbound and Outbound), real SubChannel objects (one per scid), real
-    DilatedConnectionProtocol connections on recording TCP transports.  pause/resume/stop go through
-    SubChannel.pauseProducing() & co, close through Manager.subchannel_closed()."""
+    """Real Manager (its real Inbound and Outbound), real SubChannel objects (one per scid) with a protocol
+    attached, real DilatedConnectionProtocol connections on recording TCP transports.  pause/resume/stop go
+    through SubChannel.pauseProducing() & co; `l`/`lw` are the application's loseConnection()/
+    loseWriteConnection(); `rc` is the peer's CLOSE through Inbound.handle_close() → SubChannel.remote_close()
+    → Manager.subchannel_closed(); `c` calls Manager.subchannel_closed() directly."""
     clock = Clock()
     eq = EventualQueue(clock)
     m = Manager(FakeSend(), "side", None, clock, eq, None, ["1"], 30.0, None)
@@ -438,76 +490,104 @@ def run_in(case):
     cur = None
     tcp_paused = {}
     scs = {}
+    protos = {}
 
     def sc_of(n):
         if n not in scs:
             scs[n] = SubChannel(n, m, _WormholeAddress(), SubchannelAddress("proto"))
         return scs[n]
-    # the oracle's own bookkeeping (never read from Inbound)
+    # the oracle's own bookkeeping (never read from Inbound or SubChannel)
     asked = set()        # subchannels with an outstanding pause request (a close ends the request)
     is_open = set()
     closed = set()       # closed (and not re-opened) subchannels
     stale = set()        # subchannels that were closed while they held a pause
-    any_closed = False
-    env_ok = True
+    ever = set()
+    direct = set()       # closed by the harness calling Manager.subchannel_closed behind the SubChannel machine's back
+    state = dict(any_closed=False, env_ok=True)
     lines, exp, viol, tags = [], [], [], set()
+
+    def now_closed(n):
+        if n in is_open:
+            state["any_closed"] = True
+            is_open.discard(n)
+            closed.add(n)
+            if n in asked:
+                stale.add(n)
+                asked.discard(n)
+
     for tok in case["ops"]:
         f = tok.split()
+        k = f[0]
+        n = int(f[1]) if len(f) > 1 else None
         n0 = len(log)
         exc = None
+        was_open = n in is_open
         try:
-            if f[0] == "use":
+            if k == "use":
                 gen += 1
                 p = DilatedConnectionProtocol(eq, LEADER, "desc", connector, object(), b"out", b"in")
                 p.transport = RecTCP(log, gen)
                 tcp_paused[gen] = False
                 cur = gen
                 i.use_connection(p)
-            elif f[0] == "stop":
+            elif k == "stop":
                 cur = None
                 i.stop_using_connection()
-            elif f[0] == "p":
-                if int(f[1]) in closed:
+            elif k == "p":
+                if n in closed:
                     # the application of a closed subchannel pausing again: outside the environment (correspondence only)
-                    env_ok = False
+                    state["env_ok"] = False
                     tags.add("env:pause-after-close")
-                asked.add(int(f[1]))
-                sc_of(int(f[1])).pauseProducing()
-            elif f[0] == "r":
-                asked.discard(int(f[1]))
-                stale.discard(int(f[1]))
-                sc_of(int(f[1])).resumeProducing()
-            elif f[0] == "s":
-                asked.discard(int(f[1]))
-                stale.discard(int(f[1]))
-                sc_of(int(f[1])).stopProducing()
-            elif f[0] == "o":
-                n = int(f[1])
+                asked.add(n)
+                tags.add("pause-in:" + automat_state(sc_of(n)))
+                sc_of(n).pauseProducing()
+            elif k == "r":
+                asked.discard(n)
+                stale.discard(n)
+                tags.add("resume-in:" + automat_state(sc_of(n)))
+                sc_of(n).resumeProducing()
+            elif k == "s":
+                asked.discard(n)
+                stale.discard(n)
+                tags.add("stop-in:" + automat_state(sc_of(n)))
+                sc_of(n).stopProducing()
+            elif k in ("o", "oh"):
+                if n in ever and not was_open:
+                    state["env_ok"] = False      # subchannel ids are never reused
+                    tags.add("env:scid-reuse")
                 m.subchannel_local_open(n, sc_of(n))
+                ever.add(n)
                 is_open.add(n)
                 closed.discard(n)
-            elif f[0] == "c":
-                n = int(f[1])
-                was_open = n in is_open
-                paused_now = len(asked & is_open)
+                protos[n] = HalfProto() if k == "oh" else FullProto()
+                sc_of(n)._set_protocol(protos[n])
+            elif k == "c":
                 if was_open:
-                    any_closed = True
-                    is_open.discard(n)
-                    closed.add(n)
-                    if n in asked:
-                        stale.add(n)
-                        asked.discard(n)
-                    tags.add("close:%s/%d-open-paused/%s" % ("paused" if n in asked else "unpaused", min(paused_now, 3),
+                    tags.add("close:%s/%d-open-paused/%s" % ("paused" if n in asked else "unpaused", min(len(asked & is_open), 3),
                                                             "conn%d" % min(gen, 2) if cur else "noconn"))
+                    now_closed(n)
+                    direct.add(n)
                 m.subchannel_closed(n, sc_of(n))
+            elif k == "rc":
+                i.handle_close(n)
+            elif k == "l":
+                sc_of(n).loseConnection()
+            elif k == "lw":
+                sc_of(n).loseWriteConnection()
         except Exception as e:
             exc = type(e).__name__
-            expected = (f[0] == "o" and exc == "AssertionError") or (f[0] == "c" and exc == "KeyError" and not was_open)
-            if expected:
-                tags.add("exc:" + f[0])
+            if exc in IN_EXPECTED.get(k, ()) and not (k == "c" and was_open):
+                tags.add("exc:%s:%s" % (k, exc))
+            elif exc == "KeyError" and k in ("l", "lw", "rc") and n in direct:
+                # the machine completes a close that the harness' direct `c` had already performed
+                tags.add("exc:second-close-after-direct-c")
             else:
                 viol.append(("inbound-pause-not-forwarded" if "Producing" in str(e) else "inbound-internal-exception",
                              f"{tok}: {exc}: {e}"))
+        if k in ("rc", "l", "lw") and n in protos and protos[n].gone() and n in is_open:
+            # the application has been told that the subchannel is gone
+            tags.add("closed-by:%s/%s" % (k, "paused" if n in asked else "unpaused"))
+            now_closed(n)
         for e in log[n0:]:
             g = int(e[2:])
             want = e[1] == "p"
@@ -517,9 +597,9 @@ def run_in(case):
             tags.add("tcp:" + e[:2])
         # the property: paused exactly while a not-closed subchannel has an outstanding pause request
         want = asked
-        if cur is not None and env_ok:
+        if cur is not None and state["env_ok"]:
             if want and not tcp_paused[cur]:
-                if any_closed:
+                if state["any_closed"]:
                     viol.append(("inbound-open-subchannel-pause-lost",
                                  f"after {tok}: inbound reads are running although open subchannel(s) {sorted(want)} asked for a pause "
                                  f"and never resumed (closed so far: {sorted(closed)})"))
@@ -533,20 +613,23 @@ def run_in(case):
                                  f"paused, keep the connection paused: no subchannel receives data any more"))
                 else:
                     viol.append(("inbound-pause-inexact",
-                                 f"after {tok}: nobody asks for a pause, TCP transport of the current connection paused = True"))
+                                 f"after {tok}: nobody asks for a pause (every pause was resumed, stopped or ended by a close), "
+                                 f"TCP transport of the current connection paused = True"))
         lines.append("i " + tok)
         evs = log[n0:] + (["!" + exc] if exc else [])
+        sub = ",".join("%d:%s" % (x, automat_state(scs[x])) for x in sorted(scs) if automat_state(scs[x]) != "unconnected")
         exp.append((",".join(evs) or "-") + " | "
                    + "paused=" + ",".join(str(x) for x in sorted(sc._scid for sc in i._paused_subchannels))
                    + " open=" + ",".join(str(x) for x in sorted(i._open_subchannels))
-                   + " conn=" + (str(cur) if i._connection is not None else "-"))
-        tags.add("iop:" + f[0])
+                   + " conn=" + (str(cur) if i._connection is not None else "-")
+                   + " sub=" + sub)
+        tags.add("iop:" + k)
     seen, v2 = set(), []
     for s, msg in viol:
         if s not in seen:
             seen.add(s)
             v2.append((s, msg))
-    if not env_ok:
+    if not state["env_ok"]:
         v2 = [x for x in v2 if x[0] in ("inbound-internal-exception", "inbound-double-signal")]
     return Result(lines, exp, v2, sorted(tags), nontrivial=bool(log))
 
@@ -677,7 +760,23 @@ IN_OPEN3 = ["o 1", "o 2", "o 3"]
 IN_ALPHA_C = ["use", "stop", "p 1", "p 2", "p 3", "r 1", "s 2", "c 1", "c 2", "c 3"]
 IN_ALPHA_OC = ["use", "stop", "p 1", "p 2", "r 2", "o 1", "o 2", "c 1", "c 2"]
 
+IN_OPEN2 = ["o 1", "o 2"]
+IN_ALPHA_L = ["use", "stop", "p 1", "p 2", "r 1", "r 2", "s 1", "l 1", "rc 1", "rc 2"]
+IN_OPENH = ["oh 1", "o 2"]
+IN_ALPHA_H = ["use", "p 1", "r 1", "p 2", "r 2", "lw 1", "rc 1", "l 2", "rc 2"]
+
 IN_CORPUS = [
+    # pause -> local loseConnection() (closing, still open until the peer's CLOSE) -> resume: the resume counts
+    ["use", "o 1", "o 2", "p 1", "l 1", "r 1", "rc 1", "stop", "use"],
+    ["o 1", "p 1", "l 1", "r 1", "use", "rc 1"],
+    ["use", "o 1", "o 2", "p 1", "p 2", "l 1", "r 1", "r 2", "p 1", "s 1", "rc 1"],
+    # closing while paused, then the peer's CLOSE: released at close time; the other one keeps its pause
+    ["use", "o 1", "o 2", "p 1", "p 2", "l 1", "rc 1", "stop", "use", "r 2"],
+    # half-close: pause -> loseWriteConnection() -> resume; and closed from write_closed / read_closed while paused
+    ["use", "oh 1", "p 1", "lw 1", "r 1", "p 1", "rc 1"],
+    ["use", "oh 1", "o 2", "p 1", "rc 1", "r 1", "p 1", "lw 1", "p 2", "rc 2"],
+    # misuse: wrong kind of close, double close, double CLOSE from the peer
+    ["use", "oh 1", "o 2", "l 1", "lw 2", "l 2", "l 2", "lw 1", "lw 1", "rc 1", "rc 1", "rc 2", "rc 2", "l 3"],
     # the only paused subchannel is closed: the connection must be resumed, or subchannel 2 never gets data (fixed by
     # bec439a; its revert is caught here with signature inbound-closed-subchannel-holds-pause), also on the next connection
     ["use", "o 1", "p 1", "c 1", "o 2"],
@@ -695,15 +794,19 @@ IN_CORPUS = [
 
 def rand_in_case(rng):
     ops = []
-    alpha = ["use", "stop"] + ["%s %d" % (k, n) for k in "prsoc" for n in (1, 2, 3)]
-    if rng.random() < 0.6:
-        ops += IN_OPEN3[:rng.randrange(1, 4)]
+    alpha = ["use", "stop"] + ["%s %d" % (k, n) for k in ("p", "r", "s", "o", "oh", "c", "rc", "l", "lw") for n in (1, 2, 3)]
+    if rng.random() < 0.7:
+        ops += ["%s %d" % (rng.choice(["o", "o", "oh"]), n) for n in range(1, rng.randrange(2, 5))]
     for _ in range(rng.randrange(1, 14)):
         r = rng.random()
         if r < 0.35:
             ops.append("p %d" % rng.randrange(1, 4))
-        elif r < 0.5:
-            ops.append("c %d" % rng.randrange(1, 4))
+        elif r < 0.42:
+            ops.append("%s %d" % (rng.choice(["c", "rc", "rc"]), rng.randrange(1, 4)))
+        elif r < 0.55:
+            ops.append("%s %d" % (rng.choice(["l", "l", "lw"]), rng.randrange(1, 4)))
+        elif r < 0.68:
+            ops.append("r %d" % rng.randrange(1, 4))
         else:
             ops.append(rng.choice(alpha))
     return dict(kind="in", ops=ops)
@@ -732,12 +835,16 @@ def cases(rng, tier):
         out.extend(exhaustive_in(IN_ALPHA, 7, first=("use", "p 1")))
         out.extend(exhaustive_in(IN_ALPHA_C, 5, prefix=IN_OPEN3))
         out.extend(exhaustive_in(IN_ALPHA_OC, 6, first=("use", "o 1", "p 1")))
+        out.extend(exhaustive_in(IN_ALPHA_L, 5, prefix=IN_OPEN2))
+        out.extend(exhaustive_in(IN_ALPHA_H, 5, prefix=IN_OPENH))
     else:
         out.extend(exhaustive_out(ALPHA_BIG, 2, SETUP3))
         out.extend(exhaustive_out(ALPHA_SMALL, 3, SETUP3[:2]))
         out.extend(exhaustive_in(IN_ALPHA, 5))
         out.extend(exhaustive_in(IN_ALPHA_C, 4, prefix=IN_OPEN3))
         out.extend(exhaustive_in(IN_ALPHA_OC, 4))
+        out.extend(exhaustive_in(IN_ALPHA_L, 4, prefix=IN_OPEN2))
+        out.extend(exhaustive_in(IN_ALPHA_H, 4, prefix=IN_OPENH))
     return out
 
 
